@@ -56,3 +56,29 @@ Proof. exact ex_RInt_gauss_chord. Qed.
 Definition C02_envelope_statement := envelope_forward.
 Definition C02_refinement_statement := refinement_forward.
 Definition C02_dr_statement := dr_scale_forward.
+
+(* ---- forward exact on its own span (builder "basis"; proofs/ExactOnSpan.v on top
+   of the C09 entry theorems) ------------------------------------------------
+   The forward matrix of abel/daun.py (generated entries daun_p<d> j i,
+   gen/FormulasBasis.v, regenerated from the source on every run) applied to the
+   coefficients c gives the exact Abel projection (the `Abel` above; model.Abel.Abel
+   is the same term) of span_daun<d> c n r = sum_{j<n} c_j * basis_j(r)
+   (basis_j = rect / tri / quad2 centred at pixel j) at EVERY pixel i >= 0, for
+   every size n and every c.  sumn n F = F 0 + ... + F (n-1); zc n = IZR (Z.of_nat n). *)
+From Coq Require Import ZArith.
+From PA Require Import gen.FormulasBasis proofs.ExactOnSpan.
+
+Theorem C02_forward_exact_on_span_daun0 : forall (n : nat) (c : nat -> R) (i : Z), (0 <= i)%Z ->
+  Abel (span_daun0 c n) (zc n) (IZR i) = sumn n (fun j => c j * daun_p0 (Z.of_nat j) i).
+Proof. exact forward_exact_on_span_daun0. Qed.
+Print Assumptions C02_forward_exact_on_span_daun0.
+
+Theorem C02_forward_exact_on_span_daun1 : forall (n : nat) (c : nat -> R) (i : Z), (0 <= i)%Z ->
+  Abel (span_daun1 c n) (zc n) (IZR i) = sumn n (fun j => c j * daun_p1 (Z.of_nat j) i).
+Proof. exact forward_exact_on_span_daun1. Qed.
+Print Assumptions C02_forward_exact_on_span_daun1.
+
+Theorem C02_forward_exact_on_span_daun2 : forall (n : nat) (c : nat -> R) (i : Z), (0 <= i)%Z ->
+  Abel (span_daun2 c n) (zc n) (IZR i) = sumn n (fun j => c j * daun_p2 (Z.of_nat j) i).
+Proof. exact forward_exact_on_span_daun2. Qed.
+Print Assumptions C02_forward_exact_on_span_daun2.
